@@ -104,7 +104,7 @@ def run(repo, rep):
                       'registered printer runs under the wrapper',
                       'a printer is registered as %s, not as partial(%s, fn): it runs outside the visit window'
                       % (src(a) if a is not None else '?', wfn.name), nontrivial=True)
-    base = m.assigns.get('_BASE_DISPATCH')
+    base = m.assigns.get(__import__('engine.roles', fromlist=['x']).name(repo, 'base_dispatch'))
     n += 1
     okb = bool(base) and isinstance(base[-1], ast.Call) and call_name(base[-1]) == 'partial' \
         and src(base[-1].args[0]) == wfn.name
@@ -254,7 +254,7 @@ def _consumed(g, par, f, consumers, transparent, pkg_consumers, depth=0):
 
 def _marker(repo, rep):
     m = repo.module('prettyprinter')
-    f = m.funcs.get('_pretty_recursion')
+    f = m.funcs.get(__import__('engine.roles', fromlist=['x']).name(repo, 'recursion_marker'))
     if f is None:
         for g in m.funcs.values():
             if 'recursion' in g.name.lower():
